@@ -193,7 +193,14 @@ impl Tileset<RawPixels> {
             } else {
                 let _compressed_length = reader.dword()?;
                 let expected_pixel_count =
-                    (tile_count * (tile_height as u32) * (tile_width as u32)) as usize;
+                    (tile_count as u64) * (tile_height as u64) * (tile_width as u64);
+                if expected_pixel_count > u32::MAX as u64 {
+                    return Err(AsepriteParseError::InvalidInput(format!(
+                        "Tileset {} is too large: {} tiles of {}x{} pixels",
+                        id, tile_count, tile_width, tile_height
+                    )));
+                }
+                let expected_pixel_count = expected_pixel_count as usize;
                 RawPixels::from_compressed(reader, pixel_format, expected_pixel_count).map(Some)?
             }
         };
